@@ -152,6 +152,18 @@ class Builtins:
         # python-level values (classes, functions): fork per entry
         if st.spec:
             raise Unsupported("table of python-level values in specification", node)
+        if all(isinstance(v, PyV) and v.kind == "class" for v in vals):
+            # a table of record classes: one fork per constructor (classes sharing an __init__ are handled
+            # together, the dynamic class stays tied to the key)
+            groups = {}
+            for kk, v in tab.data:
+                init = v.data.lookup("__init__")
+                groups.setdefault(init.qualname if init else None, []).append((ex.py_eq(key, kk, st), v.data))
+            for gname, items in groups.items():
+                c = OR(*[c_ for c_, _ in items])
+                if ex.feasible(st, c):
+                    k(st.assume(c).step("t"), PyV("classchoice", items))
+            return None
         for kk, v in tab.data:
             c = ex.py_eq(key, kk, st)
             if ex.feasible(st, c):
@@ -198,6 +210,8 @@ class Builtins:
             for x in v.data:
                 t = "(store %s %s true)" % (t, ex.key_term(x, ty.args[0]))
             return SV(t, ty)
+        if v.kind == "cdict" and ty.kind == "seq" and ty.args[0].kind == "tuple":
+            v = PyV("tuple", [PyV("tuple", [a, b]) for a, b in v.data], "list")
         if v.kind == "tuple" and ty.kind == "seq":
             et = ty.args[0]
             if not v.data:
@@ -206,7 +220,7 @@ class Builtins:
             return SV(units[0] if len(units) == 1 else "(seq.++ %s)" % " ".join(units), ty)
         if v.kind == "tuple" and ty.kind == "tuple":
             name = S.sort(ty)
-            items = [self.lower(x, t, st, what).t for x, t in zip(v.data, ty.args)]
+            items = [(self.lower(x, t, st, what) if isinstance(x, PyV) else ex.coerce(x, t, what)).t for x, t in zip(v.data, ty.args)]
             return SV("(mk_%s %s)" % (name, " ".join(items)), ty)
         if v.kind == "cdict" and ty.kind == "map":
             kk, vv = ty.args
@@ -295,6 +309,9 @@ class Builtins:
         elt = ex.spec_eval(e.elt, s)
         if isinstance(elt, PyV) and elt.kind == "tuple":
             ety = T.Tup(*[x.ty for x in elt.data])
+            hint = getattr(getattr(ex, "current_contract", None), "comp_elt", None)
+            if hint is not None and st.fn is not None and ex.repo.func(ex.current_contract.target.split('#')[0]) is st.fn:
+                ety = hint
             elt = self.lower(elt, ety, st)
         ety = elt.ty
         r = cx.fresh("comp", T.Seq(ety))
@@ -313,7 +330,7 @@ class Builtins:
         cx, S = self.cx, self.cx.sorts
         pt = T.Tup(T.STR, T.VAL)
         pn = S.sort(pt)
-        tn = S.sort(T.Tup(T.QN, T.VAL))
+        tn = S.sort(T.Tup(T.VAL, T.VAL))
         self.ex.need_canon_in()
         if "canonset" not in cx.funs_known:
             cx.funs_known.add("canonset")
@@ -329,6 +346,20 @@ class Builtins:
     def builtin(self, name, args, kwargs, st, k, ctl, node):
         ex = self.ex
         S = self.cx.sorts
+        if name == "isinstance" and isinstance(args[1], SV) and args[1].ty == T.CLS:
+            return k(st, SV(ex.isinstance_sym(args[0], args[1]), T.BOOL))
+        if name == "filter":
+            f, seq = args
+            # filter(lambda rec: isinstance(rec, C), records): the order-preserving class filter
+            if (isinstance(f, PyV) and f.kind == "lambda" and isinstance(seq, SV) and seq.ty.kind == "seq"
+                    and isinstance(f.data.body, ast.Call) and getattr(f.data.body.func, "id", None) == "isinstance"
+                    and isinstance(f.data.body.args[0], ast.Name) and f.data.body.args[0].id == f.data.args.args[0].arg
+                    and isinstance(f.data.body.args[1], ast.Name)):
+                cv = f.extra.get(f.data.body.args[1].id)
+                if isinstance(cv, SV) and cv.ty == T.CLS:
+                    ex.need_filters()
+                    return k(st, SV("(filtcls %s %s)" % (seq.t, cv.t), seq.ty))
+            raise Unsupported("filter() shape", node)
         if name == "isinstance":
             names = ex.class_names(args[1])
             t, _ = ex.isinstance_term(args[0], names)
@@ -387,7 +418,7 @@ class Builtins:
                 return k(st, PyV("cset", list(a.data)))
             if isinstance(a, SV) and a.ty.kind == "set":
                 return k(st, a)
-            if isinstance(a, SV) and a.ty == T.Seq(T.Tup(T.QN, T.VAL)):
+            if isinstance(a, SV) and a.ty == T.Seq(T.Tup(T.VAL, T.VAL)):
                 return k(*self.canon_pair_set(a, st))
             if isinstance(a, SV) and a.ty.kind == "seq" and a.ty.args[0].kind == "ref":
                 # set of record objects: membership by ProvRecord.__hash__/__eq__, i.e. by the record key
@@ -422,10 +453,21 @@ class Builtins:
             return k(st, SV("none", T.NONE))
         if name == "hasattr":
             return k(st, SV(self.hasattr(args[0], unslit(args[1].t), node), T.BOOL))
+        if name in ("int", "float") and isinstance(args[0], SV) and args[0].ty == T.STR:
+            # int(text)/float(text): a value for a valid lexical form, ValueError otherwise.  The parsers are
+            # uninterpreted (py_int/py_float with validity predicates); A3 relates them to str()/repr().
+            a = args[0]
+            fn, okf, rt = ("py_int", "py_int_ok", T.INT) if name == "int" else ("py_float", "py_float_ok", T.FLT)
+            for f_, rs in ((fn, S.sort(rt)), (okf, "Bool")):
+                if f_ not in self.cx.funs_known:
+                    self.cx.funs_known.add(f_)
+                    self.cx.funs.append("(declare-fun %s (String) %s)" % (f_, rs))
+            ok = "(%s %s)" % (okf, a.t)
+            if ex.feasible(st, NOT(ok)):
+                ctl.exc(st.assume(NOT(ok)).step("xV"), ExcVal("ValueError", node=node))
+            return k(st.assume(ok), SV("(%s %s)" % (fn, a.t), rt))
         if name == "int":
             a = args[0]
-            if a.ty == T.STR:
-                raise Unsupported("int(str) outside a contract", node)
             if a.ty == T.BOOL:
                 return k(st, SV("(int_of_bool %s)" % a.t, T.INT))
             if a.ty == T.INT:
@@ -646,6 +688,17 @@ class Builtins:
     def mutate(self, o, name, args, st, place, k, ctl, node):
         ex = self.ex
         S = self.cx.sorts
+        if isinstance(o, PyV) and o.kind == "tuple" and o.extra == "list":
+            a = args[0]
+            if name == "append":
+                return ex.write_back(place, PyV("tuple", list(o.data) + [a], "list"), st, lambda s: k(s, SV("none", T.NONE)), ctl)
+            if name == "extend" and isinstance(a, PyV) and a.kind == "tuple":
+                return ex.write_back(place, PyV("tuple", list(o.data) + list(a.data), "list"), st, lambda s: k(s, SV("none", T.NONE)), ctl)
+            if name == "extend" and isinstance(a, SV) and a.ty.kind == "seq":
+                base = self.lower(o, a.ty, st, "list.extend")
+                new = SV("(seq.++ %s %s)" % (base.t, a.t) if o.data else a.t, a.ty)
+                return ex.write_back(place, new, st, lambda s: k(s, SV("none", T.NONE)), ctl)
+            raise Unsupported("list.%s on a python-level list" % name, node)
         if o.ty.kind == "oset" and name == "remove":
             key = ex.rkey_term(args[0].t, st)
             line = getattr(node, "lineno", "?")
@@ -689,6 +742,10 @@ class Builtins:
     # ------------------------------------------------------------ external functions (assumed contracts)
     def external(self, qname, args, kwargs, st, k, ctl, node):
         from .calls import apply_contract
+        if qname == "collections.defaultdict":
+            # defaultdict(set) / defaultdict(list): an empty dict whose missing entries read as empty
+            # (the declared field type QMap[VSet] / QMap[Seq[..]] is the total-map view of it)
+            return k(st, PyV("cdict", []))
         c = self.ex.specs.contracts.get("ext:" + qname)
         if c is None:
             raise Unsupported("external call %s has no assumed contract" % qname, node)
@@ -713,6 +770,9 @@ class Builtins:
         if name == "vs_wf":
             return B("(vs_wf %s)" % a[0].t)
         if name == "vs_first":
+            if not st.bound:
+                # choice function of set iteration: the first element is a member
+                self.cx.axioms.append("(=> (not (= (vs_has %s) ((as const (Array Val Bool)) false))) (select (vs_has %s) (vs_firstkey %s)))" % (a[0].t, a[0].t, a[0].t))
             return SV("(vs_first %s)" % a[0].t, T.VAL)
         if name == "vs_add":
             return ex.vset_add(a[0], a[1])
@@ -747,9 +807,27 @@ class Builtins:
                 self.cx.funs.append("(assert (forall ((m %s) (p %s)) (= (select (attrset m) p) "
                                     "(select (vs_has (select (%s m) (%s_0 p))) (%s_1 p)))))" % (ms, pn, T.qm_names(T.VSET)[1], pn, pn))
             return SV("(attrset %s)" % a[0].t, T.SetT(pt))
+        if name == "uri_in":
+            cs = a[1]
+            return B(OR(*[EQ(a[0].t, ex.uri_of(x)) for x in cs.data]))
         if name == "set_has":
             x = ex.coerce(a[1], a[0].ty.args[0]) if isinstance(a[1], SV) else a[1]
             return B("(select %s %s)" % (a[0].t, x.t))
+        if name == "recs_with_id":
+            ex.need_filters()
+            hi = ex.heap_term(st, ("ProvRecord", "_identifier"), T.Opt(T.QN))
+            return SV("(filtid %s %s %s)" % (a[0].t, hi, a[1].t), a[0].ty)
+        if name == "recs_of_class":
+            ex.need_filters()
+            return SV("(filtcls %s %s)" % (a[0].t, a[1].t), a[0].ty)
+        if name == "allocated":
+            arr = st.heap.get(("$", "alloc"))
+            if arr is None:
+                if "alloc@0" not in self.cx.funs_known:
+                    self.cx.funs_known.add("alloc@0")
+                    self.cx.consts.append(("alloc@0", "(Array Int Bool)"))
+                arr = "alloc@0"
+            return B("(select %s %s)" % (arr, a[0].t))
         if name == "rkey":
             return SV(ex.rkey_term(a[0].t, st), T.RKEY)
         if name == "rec_keys":
@@ -884,6 +962,12 @@ class Builtins:
         if name == "const_set":
             # membership of a value in a constant python-level set/tuple
             return B(ex.contains(a[1], a[0], st, node))
+        if name == "table_key":
+            # the key object of a constant table that equals the given value (keys are qualified names)
+            t = a[0].data[-1][0].t
+            for kk, _ in reversed(a[0].data[:-1]):
+                t = ITE(ex.py_eq(a[1], kk, st), kk.t, t)
+            return SV(t, a[0].data[0][0].ty)
         if name == "table_has":
             return B(OR(*[ex.py_eq(a[1], kk, st) for kk, _ in a[0].data]))
         if name == "seq_len":
